@@ -491,6 +491,10 @@ impl ByteCodeGenerator {
                     return Some(VmInstruction::SetGlobal(idx, tmp_reg, 1));
                 }
 
+                if matches!(src.as_ref(), mir::Value::None) {
+                    // a unit value has no register: there is nothing to store
+                    return None;
+                }
                 let s = self.find(&src);
                 Some(VmInstruction::SetGlobal(
                     idx,
@@ -787,18 +791,23 @@ impl ByteCodeGenerator {
                     let phi_size = std::cmp::max(t_size, e_size);
                     let phi = self.get_destination(phidst.clone(), phi_size);
 
-                    let t = self.find(t);
-                    then_bytecodes.push(if phi_size == 1 {
-                        VmInstruction::Move(phi, t)
-                    } else {
-                        VmInstruction::MoveRange(phi, t, phi_size)
-                    });
-                    let e = self.find(e);
-                    else_bytecodes.push(if phi_size == 1 {
-                        VmInstruction::Move(phi, e)
-                    } else {
-                        VmInstruction::MoveRange(phi, e, phi_size)
-                    });
+                    // a unit-valued arm (`{ }`, an assignment, a missing else) has no register to move
+                    if !matches!(t.as_ref(), mir::Value::None) {
+                        let t = self.find(t);
+                        then_bytecodes.push(if phi_size == 1 {
+                            VmInstruction::Move(phi, t)
+                        } else {
+                            VmInstruction::MoveRange(phi, t, phi_size)
+                        });
+                    }
+                    if !matches!(e.as_ref(), mir::Value::None) {
+                        let e = self.find(e);
+                        else_bytecodes.push(if phi_size == 1 {
+                            VmInstruction::Move(phi, e)
+                        } else {
+                            VmInstruction::MoveRange(phi, e, phi_size)
+                        });
+                    }
                 } else {
                     unreachable!("Unexpected inst: {pinst:?}");
                 }
